@@ -3,6 +3,8 @@ package props
 import (
 	"bytes"
 	"crypto"
+	"crypto/ecdsa"
+	"crypto/elliptic"
 	"crypto/md5"
 	"crypto/rand"
 	"crypto/rsa"
@@ -839,6 +841,15 @@ func (x *c10env) failureCases(garbage string) []c10fail {
 	apk("missing-key-file", false, map[string]any{"key_file": "/does/not/exist"}, func(i *nfpm.Info, _ *int) { i.APK.Signature.KeyFile = "/does/not/exist" })
 	apk("garbage-key-file", false, map[string]any{"key_file": "<256 random bytes>"}, func(i *nfpm.Info, _ *int) { i.APK.Signature.KeyFile = garbage })
 	apk("wrong-key-format", false, map[string]any{"key_file": "wrong_key_format.priv"}, func(i *nfpm.Info, _ *int) { i.APK.Signature.KeyFile = x.key("wrong_key_format.priv") })
+	// a PEM private key that is not an RSA key (PKCS#8 ECDSA P-256, generated here): apk signatures are RSA
+	// PKCS#1 v1.5 over SHA-1, stored as .SIGN.RSA.*: any other key cannot make one
+	ecdsaKey := filepath.Join(filepath.Dir(garbage), "c10-ecdsa-pkcs8.priv")
+	if k, kerr := ecdsa.GenerateKey(elliptic.P256(), rand.Reader); kerr == nil {
+		if der, derr := x509.MarshalPKCS8PrivateKey(k); derr == nil {
+			_ = os.WriteFile(ecdsaKey, pem.EncodeToMemory(&pem.Block{Type: "PRIVATE KEY", Bytes: der}), 0o600)
+			apk("not-an-rsa-key", false, map[string]any{"key_file": "<PKCS#8 ECDSA P-256 key generated by the harness>"}, func(i *nfpm.Info, _ *int) { i.APK.Signature.KeyFile = ecdsaKey })
+		}
+	}
 	apk("wrong-passphrase", false, map[string]any{"key_file": "rsa.priv", "passphrase": "password123"}, func(i *nfpm.Info, _ *int) {
 		i.APK.Signature.KeyFile, i.APK.Signature.KeyPassphrase = x.key("rsa.priv"), "password123"
 	})
